@@ -22,15 +22,19 @@ PRIM_CONTRACT = [
 ]
 
 
-def run_worker(prop, which, N_quick, tier, seed, jobs, only=None):
+def run_worker(prop, which, N_quick, tier, seed, jobs, only=None, n_for=None):
     """Run mtsym/tokcheck in the tooling venv; returns (results, info)."""
     known = [k for k in load_known_findings().get("findings", []) if k.get("engine") == "mtsym" and prop in k.get("properties", [k.get("property")])]
-    req = {"which": which, "N": N_quick, "tier": tier, "seed": seed, "jobs": jobs, "known": known, "only": only}
+    # MT210 is the one type whose repetition cap (10 sequences) is within reach: 13 tokens; N = 14 in the thorough tier, and in
+    # the quick tier of the property that asks for it (n_for)
+    req = {"which": which, "N": N_quick, "tier": tier, "seed": seed, "jobs": jobs, "known": known, "only": only,
+           "n_for": dict(n_for or {}) if tier == "quick" else {"MT210": 14}}
     code = (
         "import sys, json; sys.path.insert(0, %r); import tokcheck\n"
         "req = json.load(sys.stdin)\n"
         "big = ('MT101', 'MT104', 'MT107')\n"
-        "Nf = (lambda t: req['N']) if req['tier'] == 'quick' else (lambda t: req['N'] + (2 if t in big else 4))\n"
+        "Nf0 = (lambda t: req['N']) if req['tier'] == 'quick' else (lambda t: req['N'] + (2 if t in big else 4))\n"
+        "Nf = lambda t: max(Nf0(t), req['n_for'].get(t, 0))\n"
         "res, info = tokcheck.run_all(req['which'] + ['validate'], Nf, req['known'], jobs=req['jobs'], only=req['only'], seed=req['seed'])\n"
         "json.dump({'results': res, 'info': {'types': info['types']}}, sys.stdout)\n" % os.path.join(VERIF, "mtsym"))
     p = subprocess.run([PY, "-c", code], input=json.dumps(req), stdout=subprocess.PIPE, stderr=subprocess.PIPE, text=True,
@@ -43,8 +47,8 @@ def run_worker(prop, which, N_quick, tier, seed, jobs, only=None):
     return d["results"], d["info"], known
 
 
-def run_tokens(prop, which, tier, seed, ev, jobs, N_quick=8):
-    results, info, known = run_worker(prop, which, N_quick, tier, seed, jobs)
+def run_tokens(prop, which, tier, seed, ev, jobs, N_quick=8, n_for=None):
+    results, info, known = run_worker(prop, which, N_quick, tier, seed, jobs, n_for=n_for)
     rc = EXIT_OK
     for a in PRIM_CONTRACT:
         if a not in ev.assumptions:
